@@ -328,9 +328,10 @@ def solve_all(obs, rounds=((("z3", 4), ("cvc5", 4)), (("cvc5", 40), ("z3", 40), 
             nxt = []
             for i in todo:
                 r, info, secs = res.get((i, "ground"), ("unknown", None, 0))
-                obs[i].by["ground"] = r
+                hinted = bool(getattr(obs[i], "smt2_hint", None))
+                obs[i].by["ground-hint" if hinted else "ground"] = ("hint-" + r) if hinted else r
                 obs[i].secs["ground"] = secs
-                if r == "sat" and not getattr(obs[i], "smt2_hint", None):
+                if r == "sat" and not hinted:
                     obs[i].model = info
                     obs[i].verdict = "sat"
                 else:
@@ -344,11 +345,15 @@ def solve_all(obs, rounds=((("z3", 4), ("cvc5", 4)), (("cvc5", 40), ("z3", 40), 
         res = p.run(jobs)
         for (i, eng), (r, info, secs) in res.items():
             o = obs[i]
-            o.by[eng] = r
+            hinted = bool(getattr(o, "smt2_hint", None))
+            o.by["ground-hint" if hinted else "ground"] = ("hint-" + r) if hinted else r
             o.secs[eng] = secs
             if r == "sat":
-                o.model = info
-                o.verdict = "sat"
+                if hinted:
+                    o.hint_model = info
+                else:
+                    o.model = info
+                    o.verdict = "sat"
     for o in obs:
         if o.verdict is None and getattr(o, "hint_model", None):
             # undecided by the solvers, refuted on the hint query: a candidate for the driver to replay
